@@ -326,7 +326,7 @@ targets! {
     "C06":"stream" => c06::Stream, "C06":"biterrors" => c06::BitErrors, "C06":"sessions" => c06::Sessions,
     "C07":"fcb" => c07::Fcb, "C07":"session" => c07::Sess,
     "C08":"mutated" => c08::Mutated,
-    "C09":"accept_exact" => c09::AcceptExact, "C09":"requests" => c09::Requests, "C09":"writers" => c09::Writers, "C09":"attr_values" => c09a::AttrValues, "C09":"attr_responses" => c09a::AttrResponses,
+    "C09":"accept_exact" => c09::AcceptExact, "C09":"requests" => c09::Requests, "C09":"writers" => c09::Writers, "C09":"attr_values" => c09a::AttrValues, "C09":"attr_responses" => c09a::AttrResponses, "C09":"echoes" => c09e::Echoes,
     "C10":"trip" => c10::Trip,
     "C11":"snapshot" => c11::Snapshot,
     "C12":"replies" => c12::Replies,
